@@ -137,6 +137,9 @@ def handle_trace_data_thread_terminate_pid(parser, events):
 
 
 def handle_trace_string_global(parser, events):
+    if not events[0].func_qualifier & DgbFuncQual.DBG_FUNC_START.value:
+        # A lone continuation record of a multi-record string, the whole string is reported when its last record arrives.
+        return None
     debugid = 0
     str_id = 0
     vstr = b''
